@@ -17,7 +17,7 @@ for line in log:
     diff = subprocess.run(["git","-C","/repo","diff",h,h+"~1"],capture_output=True,text=True).stdout
     open(d+"/patch.diff","w").write(diff)
     ents = by_subj.get(subj, [])
-    props = sorted({e['property'] for e in ents})
+    props = sorted({e['property'] for e in ents} | {a for e in ents for a in e.get('also', [])})
     meta = {"id": f"R-{slug}", "origin": "self-made: reverse of a fix commit (restores the original defect)", "fix_commit": h, "fix_subject": subj,
             "breaks": props, "what": [e['what'] for e in ents], "needs": "see the fix commit message / regression replay", "demonstration": "the regression replay(s) named in known_findings.json (fail with this patch, pass without)"}
     mp = d+"/meta.json"
